@@ -72,3 +72,17 @@ From RV Require Import Proofs.C19Long.
 Theorem C19_long_labels_are_other : forall s, 7 <= length s -> unify s = Ok (LS "other", None).
 Proof. exact unify_long. Qed.
 Print Assumptions C19_long_labels_are_other.
+
+(* DSSR documents: exactly the pairs whose class is one of the 18 Leontis-Westhof members and whose two names resolve are kept,
+   in document order; a name resolves to the FIRST residue whose full name equals the part after the last colon; of a stack
+   exactly the consecutive members that both resolve are kept *)
+From RV Require Import Proofs.C19Dssr.
+Theorem C19_dssr_pairs_exact : forall names pairs, dssr_pairs names pairs = Ok (flat_map (keep names) pairs).
+Proof. exact (dssr_pairs_exact eq_refl). Qed.
+Print Assumptions C19_dssr_pairs_exact.
+
+Theorem C19_dssr_resolve : forall names s k, dssr_resolve names (Some s) = Some k ->
+    exists x, nth_error names k = Some x /\ str_eqb x (last (split_on ":"%char s) []) = true /\
+    forall j y, j < k -> nth_error names j = Some y -> str_eqb y (last (split_on ":"%char s) []) = false.
+Proof. exact dssr_resolve_spec. Qed.
+Print Assumptions C19_dssr_resolve.
